@@ -23,7 +23,7 @@ def builds_needed(tier):
 
 
 def bounds(tier):
-    return {"builds": BUILDS, "in_domain_corpus": "all quick shards of C01-C15 on dbg and relchk (rel is covered by the properties themselves and by the hook programs here)",
+    return {"builds": BUILDS, "in_domain_corpus": "all quick shards of C01-C15 on dbg and relchk (quick: the shards of C02/C04/C06/C07/C09 alternate between the two builds; thorough: every shard on both); rel is covered by the properties themselves and by the hook programs here",
             "memcheck": tier == "thorough"}
 
 
@@ -32,8 +32,27 @@ def validate_models(tier):
     selfcheck.check_stream()
 
 
+HEAVY = ("c02", "c04", "c06", "c07", "c09")
+
+
 def shards(tier):
-    sh = [("shard_foreign", j) for j in multi.foreign_jobs(CORPUS_MODS, "quick", ["dbg", "relchk"])]
+    jobs = multi.foreign_jobs(CORPUS_MODS, "quick", ["dbg", "relchk"])
+    if tier != "thorough":
+        # quick: the five history-heavy corpora are split between the two checked builds (each shard runs on one of them, alternating),
+        # everything else runs on both; thorough runs every shard on both builds
+        keep, n = [], {}
+        for j in jobs:
+            mn, fname, arg, build = j
+            if mn in HEAVY:
+                k = (mn, fname, repr(arg))
+                if k not in n:
+                    n[k] = len(n)
+                if (n[k] % 2 == 0) != (build == "dbg"):
+                    continue
+            keep.append(j)
+        jobs = keep
+    jobs.sort(key=lambda j: (0 if j[0] in HEAVY else 1))      # long shards first
+    sh = [("shard_foreign", j) for j in jobs]
     for b in BUILDS:
         sh.append(("shard_counters", b))
         sh.append(("shard_misuse", (b, None)))
